@@ -312,7 +312,7 @@ class MapfileTransformer(Transformer):
                 values = {value_tokens[0].value: value_tokens[1].value}
             else:
                 # list of values
-                values = [v.value for v in value_tokens]  # type: ignore
+                values = [self.hexcolor_value(v) for v in value_tokens]  # type: ignore
                 d["__tokens__"] = [key_token] + list(value_tokens)
         else:
             # single value
@@ -320,7 +320,7 @@ class MapfileTransformer(Transformer):
             # store the original tokens so they can be processed
             # differently for METADATA, VALIDATION, and VALUES
             d["__tokens__"] = [key_token, value_token]
-            values = value_token.value
+            values = self.hexcolor_value(value_token)
 
             if self.quoter.is_string(values):
                 values = self.clean_string(values)  # type: ignore
@@ -654,8 +654,22 @@ class MapfileTransformer(Transformer):
         return t
 
     def hexcolor(self, t):
-        t[0].value = self.clean_string(t[0].value).lower()
+        # the token is left as written (a quoted colour can also be an operand of an
+        # expression); attribute values are unquoted and lower-cased in attr()
         return t[0]
+
+    def hexcolor_value(self, token):
+        v = token.value
+        # (a list or expression reuses its first token to carry the whole text)
+        if (
+            getattr(token, "type", None)
+            in ("DOUBLE_QUOTED_HEXCOLOR", "SINGLE_QUOTED_HEXCOLOR")
+            and v[:2] in ('"#', "'#")
+            and v.count(v[0]) == 2
+            and v[-1] == v[0]
+        ):
+            return self.clean_string(v).lower()
+        return v
 
     def num_pair(self, t):
         a, b = t
